@@ -120,6 +120,9 @@ fn run(ctx: &mut Ctx) {
             _ => rng.below(1000) as u32,
         };
         let mut serial_from_zero = i % 7 == 0;
+        // serial numbers are labels: mostly increasing, sometimes repeated across a file boundary, restarting per file, or
+        // repeated inside a file
+        let serial_mode = rng.below(8);
         let undec_mode = rng.below(6); // 0 none, 1 first, 2 middle, 3 last, 4 all, 5 random
         let mut files: Vec<FileSpec> = Vec::new();
         // unix time of the run: usually 2020, now and then straddling 2^31 s (January 2038) or close to 2^32
@@ -139,6 +142,12 @@ fn run(ctx: &mut Ctx) {
                 if serial_from_zero {
                     serial = 0;
                     serial_from_zero = false;
+                } else if e == 0 && k > 0 && serial_mode == 1 {
+                    // the first event of this file carries the same serial number as the last event of the previous file
+                } else if e == 0 && k > 0 && serial_mode == 2 {
+                    serial = 0; // numbering restarts in every file
+                } else if serial_mode == 3 && rng.chance(0.2) {
+                    // a repeated serial number inside the file
                 } else {
                     serial += 1 + rng.below(3) as u32;
                 }
@@ -282,7 +291,11 @@ fn run(ctx: &mut Ctx) {
         let mut d = Digest::new();
         let run_big_endian = rng.below(4) == 0;
         for f in &files {
-            let evs: Vec<Event> = f.events.iter().map(|e| Event { id: e.id, serial: e.serial, timestamp: f.t0, banks: e.banks.clone() }).collect();
+            // event-header unix times: all equal to the file's start, or advancing through the file (with jumps of tens of
+            // seconds when the file is long), never beyond the file's final time
+            let ne = f.events.len().max(1) as u32;
+            let advancing = rng.bool();
+            let evs: Vec<Event> = f.events.iter().enumerate().map(|(k, e)| Event { id: e.id, serial: e.serial, timestamp: if advancing { f.t0 + (f.t1 - f.t0) / ne * k as u32 + if k as u32 * 2 > ne { (f.t1 - f.t0) % ne.max(1) } else { 0 } } else { f.t0 }, banks: e.banks.clone() }).collect();
             // each file in one of the formats the MIDAS library reads: byte order and bank flavour are per file
             let small = evs.iter().all(|e| e.banks.iter().all(|b| b.1.len() < 65536));
             let be = run_big_endian || rng.chance(0.1);
